@@ -189,9 +189,21 @@ def _bad_op(rng, sh, k, corrupt_fn=None):
              "ref_clash", "ref_clash", "hdr_multi", "rename_malformed", "del_id", "placeholder_clash",
              "invalid_then_rm", "self_mention", "unknown_then_clash", "hdr_bad_predefined", "header_add",
              "grp_jstring", "unknown_then_malformed", "set_field_none", "stale_handle", "stale_handle",
-             "anonymise_mentioned", "grp_edit", "grp_edit"]
+             "anonymise_mentioned", "grp_edit", "grp_edit", "deep_nest"]
     kind = rng.choice(kinds)
     tags = gen_tags(rng, k)
+    if kind == "deep_nest" and v == "gfa2" and ids:
+        # groups nested several hundred levels deep over one line, which is then removed: the cascade reaches
+        # every level (and does not depend on the interpreter's recursion limit)
+        base = rng.choice(ids)
+        rt = rng.choice("OU")
+        sfx = "+" if rt == "O" else ""
+        depth = rng.choice([350, 500])
+        pfx = sh.fresh(rng) + "_"
+        lines_ = ["%s\t%s0\t%s%s" % (rt, pfx, base, sfx)] + \
+                 ["%s\t%s%d\t%s%d%s" % (rt, pfx, j, pfx, j - 1, sfx) for j in range(1, depth)]
+        return kind, [{"op": "add_many", "lines": lines_}, {"op": "rm", "id": base, "how": rng.choice(["rm", "disconnect"])},
+                      {"op": "rm", "id": pfx + "0", "how": "rm"}]
     if kind == "grp_edit" and v == "gfa2":
         # items added to / removed from a connected group through its methods (known and unknown identifiers,
         # the group itself, lines of classes a group cannot list), then a removal
